@@ -124,3 +124,74 @@ def case(cfg, values):
 
 def spec(cfg, i, path):
     return path.outcome == 'ret' and path.value == []
+
+
+# ------------------------------------------------------------------ the key of a key, given RAW and not yet in normal form (a str key is stripped by validation)
+BOUND_KK = 'Country (str key) <- Capital (key = the country) <- Office / Report (composite key with the capital); 6 ways of naming Capital["FR"] by the raw text " FR ", alone and in pairs'
+_KK = None
+
+
+def kk_model():
+    global _KK
+    if _KK is None:
+        d = orm.Database('sqlite', ':memory:')
+
+        class Country(d.Entity):
+            code = orm.PrimaryKey(str)
+            capital = orm.Optional('Capital')
+
+        class Capital(d.Entity):
+            country = orm.PrimaryKey(Country)
+            offices = orm.Set('Office'); reports = orm.Set('Report')
+
+        class Office(d.Entity):
+            id = orm.PrimaryKey(int)
+            capital = orm.Required(Capital)
+
+        class Report(d.Entity):
+            capital = orm.Required(Capital); year = orm.Required(int); orm.PrimaryKey(capital, year)
+        d.generate_mapping(create_tables=True)
+        with orm.db_session:
+            c = Country(code='FR'); cap = Capital(country=c); Office(id=1, capital=cap); Report(capital=cap, year=2020)
+        _KK = types.SimpleNamespace(db=d, Country=Country, Capital=Capital, Office=Office, Report=Report)
+    return _KK
+
+
+_NEXT_ID = []
+KK_WAYS = {
+    'Capital[raw]': lambda M, raw: M.Capital[raw],
+    'Capital.get(country=raw)': lambda M, raw: M.Capital.get(country=raw),
+    'Office.get(id, capital=raw).capital': lambda M, raw: M.Office.get(id=1, capital=raw).capital,
+    'Report.get(capital=raw, year).capital': lambda M, raw: M.Report.get(capital=raw, year=2020).capital,
+    'Report[raw, year].capital': lambda M, raw: M.Report[raw, 2020].capital,
+    'a new Office(capital=raw).capital': lambda M, raw: M.Office(id=_NEXT_ID.pop(), capital=raw).capital,
+}
+
+
+def kk_configs(tier):
+    return [dict(first=a, second=b, raw=r) for a in KK_WAYS for b in KK_WAYS for r in ('FR', ' FR ') if a <= b]
+
+
+def kk_case(cfg, values):
+    def call():
+        M = kk_model(); bad = []
+        try:
+            _NEXT_ID[:] = [10, 9]
+            with orm.db_session:
+                got = []
+                for w in (cfg['first'], cfg['second']):
+                    try: got.append(KK_WAYS[w](M, cfg['raw']))
+                    except (AttributeError, core.ObjectNotFound) as e: got.append('%s: nothing found (%s)' % (w, type(e).__name__))
+                want = M.Capital[M.Country['FR']]
+                for w, g in zip((cfg['first'], cfg['second']), got):
+                    if g is not want: bad.append(('%s with %r hands out %r, the row is %r' % (w, cfg['raw'], g, want),))
+                cache = M.db._get_cache()
+                countries = [o for o in cache.objects if isinstance(o, M.Country)]; capitals = [o for o in cache.objects if isinstance(o, M.Capital)]
+                if len(countries) != 1 or len(capitals) != 1: bad.append(('objects in the session: %r %r - one country and one capital are stored' % (countries, capitals),))
+                orm.rollback()
+        except Exception as e:
+            bad.append(('raises %s: %s' % (type(e).__name__, str(e)[:120]),))
+        finally:
+            _reset()
+        return bad[:4]
+    return Case(call, {}, [], lambda r: _reset(), lambda r: _reset())
